@@ -104,6 +104,21 @@ Proof.
 Qed.
 Print Assumptions c17_buffered_bad_item_refuted.
 
+(* ---- 5'. the proposed repair of getOperations / worker (transcribed as fix_batch_calls) meets
+   both clauses without side conditions, undecodable items included *)
+Theorem c17_buffered_fix_equiv :
+  forall (batches : list (list bop)) (s : inner) (k : N),
+    kin k (i_run s (flat_map fix_batch_calls batches)) = kin k (i_run s (seq_calls (concat batches))).
+Proof. exact fix_ks_equiv. Qed.
+Print Assumptions c17_buffered_fix_equiv.
+
+Theorem c17_buffered_fix_advertises :
+  forall (l : list bop) (s : inner) (k : N),
+    (pin k (i_run s (fix_batch_calls l)) = true -> pin k (i_run s (seq_calls l)) = true) /\
+    (pin k (i_run s (seq_calls l)) = true -> pin k (i_run s (fix_batch_calls l)) = true \/ kin k s = true).
+Proof. exact fix_pend. Qed.
+Print Assumptions c17_buffered_fix_advertises.
+
 (* ---- 6. the trace acceptor is sound (verified monitor) ------------------------------------------ *)
 Theorem c17_accepts_sound : forall p tr, accepts p tr = true -> Level0 p tr.
 Proof. exact accepts_sound. Qed.
